@@ -102,8 +102,18 @@ c.param("input_file", Str())
 # the configuration modelled for EnvelopeStorage.__init__ (every configured class id is compared with every default: one path per
 # coincidence) has two configurable roles in the quick tier, three in the thorough tier
 import os as _os
-INIT_NAMES = NAMES if _os.environ.get("VERIF_TIER") == "thorough" else ["ROOT", "APP_LOCAL_1"]
-c.modifies(**{"self.__dict_base__": Computed(lambda it, env: _cfg_type(INIT_NAMES if it.verifying == (FI, "EnvelopeStorage.__init__") else NAMES))})
+# (named in the variant label: quick ROOT+APP_LOCAL_1; thorough every pair of the three)
+INIT_PAIRS = [("ROOT", "APP_LOCAL_1")] + ([("ROOT", "RAD_LOCAL_1"), ("APP_LOCAL_1", "RAD_LOCAL_1")] if _os.environ.get("VERIF_TIER") == "thorough" else [])
+
+
+def _cfg_for(it, env):
+    if it.verifying == (FI, "EnvelopeStorage.__init__"):
+        lab = (getattr(it, "variant_label", None) or "").split("/")[-1]
+        return _cfg_type(lab.split("+") if "+" in lab else list(INIT_PAIRS[0]))
+    return _cfg_type(NAMES)
+
+
+c.modifies(**{"self.__dict_base__": Computed(_cfg_for)})
 c.raises("SystemExit")
 
 c = Contract(FI, "EnvelopeStorage._get_role_assignments_from_kconfig", ["C13"])
@@ -341,7 +351,7 @@ c.param("self", Obj(FI, "EnvelopeStorageNrf54h20"))
 c.param("base_address", Int(0, 2 ** 32 - 1))
 c.param("load_defaults", Bool())
 c.param("kconfig", OneOf(NoneT(), Str()))
-c.variants = [(cls, {"self": Obj(FI, cls)}) for cls in ("EnvelopeStorageNrf54h20", "EnvelopeStorageNrf9280")]
+c.variants = [(f"{cls}/{a}+{b}", {"self": Obj(FI, cls)}) for cls in ("EnvelopeStorageNrf54h20", "EnvelopeStorageNrf9280") for a, b in INIT_PAIRS]
 c.check("order", _init_checks)
 c.raises("GeneratorError")
 c.raises("KeyError")
